@@ -19,7 +19,8 @@ func init() {
 // mapping permutes the table's columns and leaves one out), the records go
 // through the real encoding/csv reader, csvToSql, engine.EvaluateInsert and the
 // storage, and the table is read back with SELECT *. Record classes: valid,
-// NULL marker in the text column, an INT that parses but is outside 32 bits
+// NULL marker in the text column (classes=6: also a quoted field holding the
+// separator and a doubled quote, and a quoted NULL marker), an INT that parses but is outside 32 bits
 // (refused by the storage layer, not by the importer), an unparsable number.
 // Every accepted record is one row with the converted values, in input order;
 // the others are reported and leave no trace.
@@ -54,7 +55,7 @@ func verifH_C19_real() {
 	var wants []want
 	var input []byte
 	for r := 0; r < n; r++ {
-		class := verifChoice("class", 4)
+		class := verifChoice("class", verifParam("classes", 4))
 		txt := verifBytes("txt", 2)
 		for _, c := range txt {
 			verifAssume(verifAnd(verifAnd(c != ',', c != '"'), verifAnd(c > 0x20, c < 0x7f)))
@@ -82,6 +83,14 @@ func verifH_C19_real() {
 			if v := int64(2147483600) + num; v <= 2147483647 {
 				wants = append(wants, want{v, big, string(txt)})
 			}
+		case 4:
+			// a quoted text field that holds the separator and a doubled quote: "t,""x"
+			line = []byte("\"" + string(txt[:1]) + ",\"\"" + string(txt[1:]) + "\"," + string(dg) + "," + string(bg))
+			wants = append(wants, want{num, big, string(txt[:1]) + ",\"" + string(txt[1:])})
+		case 5:
+			// a quoted NULL marker is still the NULL marker for the importer (the csv reader strips the quotes)
+			line = []byte("\"\\N\"," + string(dg) + "," + string(bg))
+			wants = append(wants, want{num, big, nil})
 		default:
 			line = []byte(string(txt) + ",x" + string(dg) + "," + string(bg))
 		}
